@@ -53,11 +53,11 @@ Decisions(acls) == [acls |-> SetToSeq(acls),
                     any |-> SetToSeq({<<pr, h, op>> \in Principals \X Hosts \X AnyOps : AnyAllowed(acls, pr, h, op)})]
 Deny == {x \in AclUniverse : x.perm = "DENY"}
 Allow == {x \in AclUniverse : x.perm = "ALLOW"}
-Sets == IF Mode = "pairs" THEN {{a} : a \in AclUniverse} \cup {{a, b} : a \in Deny, b \in Allow}
+Sets(u) == IF Mode = "pairs" THEN {{a} : a \in AclUniverse} \cup {{a, b} : a \in Deny, b \in Allow}
         ELSE IF Mode = "all2" THEN {s \in SUBSET AclUniverse : Cardinality(s) \in {1, 2}}
         ELSE IF Mode = "rand" THEN {s \in RandomSetOfSubsets(NTriples, 2, AclUniverse) \cup RandomSetOfSubsets(NTriples \div 2, 3, AclUniverse) : Cardinality(s) \in 1..4}
         ELSE {s \in RandomSetOfSubsets(NTriples, 3, AclUniverse) : Cardinality(s) \in 2..4}
-Cases == SetToSeq({Decisions(s) : s \in Sets})
+Cases == SetToSeq({Decisions(s) : s \in Sets(0)})
 ASSUME PrintT(<<"universe", Cardinality(AclUniverse), "cases", Len(Cases)>>)
 ASSUME ndJsonSerialize(OutFile, Cases)
 \* sanity anchors of the oracle itself (a wrong oracle is a spec bug, not a violation)
